@@ -9,14 +9,26 @@ fn main() {
     let argv: Vec<String> = std::env::args().collect();
     let mut log: Option<String> = None;
     let mut mode = "ok".to_string();
+    let mut counter: Option<String> = None;
     let mut i = 1;
     while i + 1 < argv.len() {
         match argv[i].as_str() {
             "--log" => log = Some(argv[i + 1].clone()),
             "--mode" => mode = argv[i + 1].clone(),
+            "--counter" => counter = Some(argv[i + 1].clone()),
             _ => {}
         }
         i += 2;
+    }
+    // failat:K:<submode> -- the K-th call (counted in the --counter file, calls of one query are sequential) misbehaves as <submode>,
+    // every other call is faithful: a failure of the exchange at one SAT-call position of a query
+    if let Some(rest) = mode.clone().strip_prefix("failat:") {
+        let (k, sub) = rest.split_once(':').unwrap_or((rest, "silent"));
+        let k: usize = k.parse().unwrap();
+        let path = counter.clone().expect("failat needs --counter");
+        let c: usize = std::fs::read_to_string(&path).ok().and_then(|t| t.trim().parse().ok()).unwrap_or(0) + 1;
+        let _ = std::fs::write(&path, format!("{}", c));
+        mode = if c == k { sub.to_string() } else { "ok".to_string() };
     }
     let out = std::io::stdout();
     let mut out = out.lock();
